@@ -243,11 +243,19 @@ impl Visitor<Diagnostic> for RuleFunctionBlockUse<'_> {
     }
 
     fn visit_var_decl(&mut self, node: &VarDecl) -> Result<Self::Value, Diagnostic> {
-        if let InitialValueAssignmentKind::FunctionBlock(fbi) = &node.initializer {
-            if let Some(id) = node.identifier.symbolic_id() {
-                self.var_to_fb
-                    .insert(id.clone(), fbi.type_name.name.clone());
+        // A function block instance that is declared with initial values parses as a
+        // structure initialization of the function block type.
+        let type_name = match &node.initializer {
+            InitialValueAssignmentKind::FunctionBlock(fbi) => Some(&fbi.type_name.name),
+            InitialValueAssignmentKind::Structure(si)
+                if self.function_blocks.contains_key(&si.type_name.name) =>
+            {
+                Some(&si.type_name.name)
             }
+            _ => None,
+        };
+        if let (Some(type_name), Some(id)) = (type_name, node.identifier.symbolic_id()) {
+            self.var_to_fb.insert(id.clone(), type_name.clone());
         }
         Ok(())
     }
